@@ -366,20 +366,29 @@ def generate(seed, tier, index=0, batch_seed=None):
         # T ; the caller changes X ; T again (plus the directed probes)
         uses = _cat().USES
         xt = [(x, n) for x in sorted(_cat().MUTATIONS) for n in names if x in uses.get(n, ()) and not ops[n].slow]
+        # five readers of one object per run, from a rotation over all (object, reader) pairs that is a bijection of the slot
+        # number (stride coprime to the number of pairs), so that a batch of R runs covers R pairs and the thorough tier all of them
         slot = index // 5 + (batch_seed or 0)
+        K = 5
+        start = (slot * K) % len(xt)
+        x = xt[start][0]
+        readers = [n for (x2, n) in (xt[(start + j) % len(xt)] for j in range(K)) if x2 == x]
         out = []
-        x, n = xt[(slot * 7919) % len(xt)]
-        o = {"op": n}
-        if ops[n].rand:
-            o["rng_seed"] = rng.choice(RAND_SEEDS)
-        out += [dict(o), {"op": "@mutate", "target": x}, dict(o)]
+        for n in readers:
+            o = {"op": n}
+            if ops[n].rand:
+                o["rng_seed"] = rng.choice(RAND_SEEDS)
+            out.append(o)
+        again = [dict(o) for o in out]
+        out.append({"op": "@mutate", "target": x})
+        out += again  # (in a dynamic run the re-executions are also inserted by execute(); an explicit list keeps replays self-contained)
         others = [m for m in names if x in uses.get(m, ()) and not ops[m].slow]
-        for _ in range(2):
-            v = {"op": rng.choice(others)}
-            if ops[v["op"]].rand:
-                v["rng_seed"] = rng.choice(RAND_SEEDS)
-            out.insert(rng.choice([0, len(out)]), v)
-        sw = {"kind": "caller_mutation_sweep", "target": x, "template": n, "faults": []}
+        v = {"op": rng.choice(others)}
+        if ops[v["op"]].rand:
+            v["rng_seed"] = rng.choice(RAND_SEEDS)
+        out.append(v)
+        n = readers[0]
+        sw = {"kind": "caller_mutation_sweep", "target": x, "template": n, "readers": len(readers), "faults": []}
         return {"property": PROP, "seed": seed, "tier": tier, "swarm": sw, "ops": out, "sched": sched}
     seq = []
     pairs = same_group_pairs(tier)
